@@ -10,18 +10,46 @@ from . import cumulative as _cum
 
 
 def case_name(c):
-    return f"{c['op']}(n={c['n']})/N={c['N']},G={c['G']}/mask={c['mask']['kind']}"
+    s = f"{c['op']}(n={c['n']})/N={c['N']},G={c['G']}/mask={c['mask']['kind']}"
+    if c.get("via"):
+        s = f"GroupBy.{s}/{c['via']}" + ("/chunks=" + "+".join(map(str, c["lengths"])) if c.get("lengths") else "")
+    return s
 
 
 def build(case, inp):
     N, G = case["N"], case["G"]
+    if case.get("lengths"):
+        from .gbcore import ChunkedState
+        st = ChunkedState(inp, case["lengths"], [min(L, G) for L in case["lengths"]], G)
+        return {"codes": st.global_codes(), "state": st}
     d = {"codes": inp.codes("k", N, G)}
     if case["mask"]["kind"] == "bool_sym":
         d["mask"] = inp.bools("m", N)
     return d
 
 
+def call_gb(E, case, d):
+    """the public GroupBy.head/tail/nth glue on a directly constructed state (contiguous or chunked with per-chunk dictionaries);
+    cut: _get_row_selection (the positional take is pandas code) returns the selected positions"""
+    from .gbcore import make_gb
+    G, n, N = case["G"], case["n"], case["N"]
+    if case.get("lengths"):
+        st = d["state"]
+        gb = make_gb(E, G, chunks=st.chunk_arrays(), pointers=st.pointer_arrays())
+    else:
+        gb = make_gb(E, G, codes=A(d["codes"], "int64").tag("state:_group_ikey"))
+    vals = A([float(i) for i in range(N)], "float64").tag("input:values")
+    out = getattr(gb, case["op"])(vals, n, keep_input_index=True)
+    arr = out.arr
+    shape = getattr(out, "ilocs_shape", None)
+    if shape is not None and len(shape) == 2:
+        return A(arr.cells, arr.dtype, tuple(shape))
+    return arr
+
+
 def call(E, case, d):
+    if case.get("via"):
+        return call_gb(E, case, d)
     nbm = E["gbnumba"]
     codes = A(d["codes"], "int64").tag("input:group_key")
     mask = A(d["mask"], "bool").tag("input:mask") if "mask" in d else None
@@ -78,7 +106,45 @@ def wits(case, d):
 
 
 def signature(case, labels):
-    return f"{case['op']}:n{'<0' if case['n'] < 0 else '>=0'}:mask={case['mask']['kind'] != 'none'}"
+    return ("GroupBy." if case.get("via") else "") + f"{case['op']}:n{'<0' if case['n'] < 0 else '>=0'}:mask={case['mask']['kind'] != 'none'}"
+
+
+def replay_gb(case, conc):
+    """real class, same state, public method with keep_input_index=True: the rows returned (index labels = positions) per group"""
+    from . import c03 as C3
+    G, n, N, op = case["G"], case["n"], case["N"], case["op"]
+    if case.get("lengths"):
+        loc = [conc[f"l{c}_"] for c in range(len(case["lengths"]))]
+        ptr = [conc[f"p{c}_"] for c in range(len(case["lengths"]))]
+        codes = [(-1 if x < 0 else p[x]) for l, p in zip(loc, ptr) for x in l]
+        gb = C3.real_gb(G, chunks=loc, pointers=ptr)
+    else:
+        codes = [int(x) for x in conc["k"]]
+        gb = C3.real_gb(G, codes=codes)
+    vals = real_np.arange(N) * 10.0
+    try:
+        out = getattr(gb, op)(vals, n, keep_input_index=True)
+    except Exception as e:      # noqa: BLE001
+        return True, f"real call raised {type(e).__name__}: {e}"
+    got = [int(i) for i in out.index]
+    exp = []
+    for g in range(G):
+        rows = [i for i in range(N) if codes[i] == g]
+        if op == "head":
+            exp += rows[:n] if n > 0 else []
+        elif op == "tail":
+            exp += rows[len(rows) - n:] if 0 < n <= len(rows) else (rows if n > 0 else [])
+        else:
+            if -len(rows) <= n < len(rows):
+                exp.append(rows[n])
+    problems = []
+    if sorted(got) != sorted(exp):
+        problems.append(f"rows returned {sorted(got)} != rows expected {sorted(exp)}")
+    elif got != exp:
+        problems.append(f"rows in order {got}, expected group by group {exp}")
+    if [float(v) for v in real_np.asarray(out)] != [10.0 * i for i in got]:
+        problems.append("values do not belong to the returned index labels")
+    return bool(problems), {"problems": problems, "codes": codes, "n": n}
 
 
 def real_call(case, conc):
@@ -95,6 +161,8 @@ def real_call(case, conc):
 
 def replay(case, conc, cand=None):
     import sys
+    if case.get("via"):
+        return replay_gb(case, conc)
     me = sys.modules[__name__]
     d = common.concrete_d(me, case, conc)
     try:
